@@ -23,7 +23,14 @@ RULE = ("HistogramNew: random (min,max,nbins) incl. nbins=1, min<0, min>0, "
         "explicit range (periodic and not), bond and angle scalings on "
         "physical data. csg_density: XML topology + .gro frames with "
         "unwrapped coordinates (up to +-150 box lengths), axis x|y|z, mass "
-        "and number density, oracle recomputed from the printed digits; a "
+        "and number density, oracle recomputed from the printed digits; "
+        "reuse family: ONE HistogramNew object driven through scripts of "
+        "Initialize / fill / Normalize / Clear / re-Initialize (other range, "
+        "bin count, periodic flag) steps (FN, FNCFN, FCFN, FIFN, FNN, FNFN, "
+        "... and random scripts), shadow histogram compared after every "
+        "step, non-trivial when a Clear or re-Initialize precedes a "
+        "Normalize; legacy Histogram: second ProcessData on the same object "
+        "against a fresh object. A csg_density "
         "run is non-trivial when at least one bead lies outside [0,L).")
 
 
@@ -351,7 +358,8 @@ def run(chk):
             ("legacy", vf.tier_n(chk.tier, 3000, 20000)),
             ("wrap", vf.tier_n(chk.tier, 20, 100)),
             ("huge", vf.tier_n(chk.tier, 20, 100)),
-            ("legacyx", vf.tier_n(chk.tier, 9, 60))]
+            ("legacyx", vf.tier_n(chk.tier, 9, 60)),
+            ("reuse", vf.tier_n(chk.tier, 1500, 40000))]
     jobs, what = [], []
     for mode, n in plan:
         for s in range(shards):
